@@ -118,6 +118,12 @@ def run_shard(shard):
     if kind == "fixed":
         for s in gen_py.SEEDS + gen_xonsh.XONSH_STMTS + gen_xonsh.PY_STMTS:
             check_case(acc, s, "exec", "seed")
+        from . import c09, c10
+
+        for s in c10.FIXED + [lit + "\n" for lit in c09.SPANNING] + ["if x:\n    " + lit + "\nz = 1\n" for lit in c09.SPANNING]:
+            check_case(acc, s, "exec", "fstring-and-spanning-literals")
+        for _ in range(400):
+            check_case(acc, c10.gen_case(rnd), "exec", "fstring-product")
         for s in gen_xonsh.XONSH_STMTS + MULTILINE_SEEDS:
             for _ in range(6):
                 m = gen_xonsh.bracket_newlines(rnd, s)
